@@ -101,9 +101,10 @@ func init() {
 			{Rel: ".", Dir: "fiber", Entry: "VH_C09_sort", Cases: tierCases([]int{2, 3}, []int{2, 3, 4}), Reach: []string{"sorted"}, MaxPaths: 100000},
 			{Rel: ".", Dir: "fiber", Entry: "VH_C09_ranges", Cases: tierCases([]int{1, 2, 3, 4}, []int{1, 2, 3, 4, 5, 6}), Reach: []string{"split"}, MaxPaths: 100000},
 			{Rel: ".", Dir: "fiber", Entry: "VH_C09_offer", Cases: tierCases([]int{0, 1, 4, 8, 9, 12}, []int{0, 1, 4, 5, 8, 9, 12, 13}), Reach: []string{"some", "none"}, MaxPaths: 100000},
+			{Rel: ".", Dir: "fiber", Entry: "VH_C09_format", Cases: tierCases([]int{0, 1, 2, 3}, []int{0, 1, 2, 3}), Reach: []string{"negotiated", "not-acceptable"}, MaxPaths: 100000},
 		},
 		Bounds: map[string]string{
-			"quick":    "sortAcceptedTypes: 2..3 entries with symbolic quality (any non-negative non-NaN float64), symbolic specificity 1..4, 0..2 parameters; forEachMediaRange: every byte string of length 1..4; getOffer end-to-end: 4 offer lists x 1 templated range, 2 of them x 2 ranges (5 media ranges, optional parameter, q absent/0/1/0.D with symbolic digit, optional space around commas)",
+			"quick":    "sortAcceptedTypes: 2..3 entries with symbolic quality (any non-negative non-NaN float64), symbolic specificity 1..4, 0..2 parameters; forEachMediaRange: every byte string of length 1..4; getOffer end-to-end: 4 offer lists x 1 templated range, 2 of them x 2 ranges (5 media ranges, optional parameter, q absent/0/1/0.D with symbolic digit, optional space around commas); Format with the default entry at every list position against Accept headers built from two q-valued ranges and an optional third",
 			"thorough": "sort up to 4 entries; media-range splitter up to 6 bytes; all 4 offer lists x 1..2 templated ranges",
 		},
 		Assumptions: []string{
@@ -215,15 +216,16 @@ func init() {
 			{Rel: ".", Dir: "fiber", Entry: "VH_C12_roundtrip", Cases: tierCases([]int{0, 1, 2}, []int{0, 1, 2, 3}), Reach: []string{"roundtrip"}, MaxPaths: 100000},
 			{Rel: ".", Dir: "fiber", Entry: "VH_C12_hostile", Cases: tierCases([]int{1, 2, 3, 4}, []int{1, 2, 3, 4, 5, 6, 7}), Reach: []string{"malformed", "wellformed"}, MaxPaths: 200000},
 			{Rel: ".", Dir: "fiber", Entry: "VH_C12_exchange", Cases: tierCases([]int{1}, []int{1, 2}), Reach: []string{"exchange"}, MaxPaths: 100000},
+			{Rel: ".", Dir: "fiber", Entry: "VH_C12_mixed", Cases: tierCases([]int{0, 1}, []int{0, 1}), Reach: []string{"mixed"}, MaxPaths: 100000, ExtraPkgs: []string{"github.com/gofiber/fiber/v3/binder"}},
 		},
 		Bounds: map[string]string{
-			"quick":    "round trip of 0..2 messages with symbolic key/value (length 0..2, all bytes), level and old-input flag into a dirty reused target; hostile cookie: every byte string of length 1..4 (minus ';', space, '\"') with an allocation budget of 64*len+512 bytes; issue/present/expire/absent exchange with 1 message at the fasthttp API level",
+			"quick":    "round trip of 0..2 messages with symbolic key/value (length 0..2, all bytes), level and old-input flag into a dirty reused target; hostile cookie: every byte string of length 1..4 (minus ';', space, '\"') with an allocation budget of 64*len+512 bytes; issue/present/expire/absent exchange with 1 message at the fasthttp API level; a redirect carrying one message (key 1 letter, value 0..2 letters) and the old input of one query field (name 1 letter, value 0..2 letters) in both call orders, the message key possibly equal to the field name",
 			"thorough": "up to 3 messages, hostile cookies up to 7 bytes, exchange with 2 messages",
 		},
 		Assumptions: []string{
 			"the exchange harness hands the issued cookie value back through fasthttp's header API (no wire serialisation); wire-safety of the value is a separate assertion and a known finding (C12-K1)",
 			"flash parsing is invoked directly (RawHeaders is only filled by wire parsing)",
-			"WithInput (binder/reflection) is outside this harness",
+			"WithInput is exercised for query input only (map target through the type-inspection reflect bridge); form and multipart input outside",
 		},
 	}
 	props["C05"] = PropSpec{
@@ -281,7 +283,7 @@ func init() {
 		ID: "C13",
 		Runs: []HarnessRun{
 			{Rel: "middleware/limiter", Dir: "limiter", Entry: "VH_C13_sequential", Cases: tierCases([]int{0, 9, 16, 25, 2, 20}, []int{0, 1, 2, 3, 4, 5, 8, 9, 10, 12, 16, 17, 18, 20, 24, 25, 26, 28}), Reach: []string{"admitted", "rejected"}, MaxPaths: 200000, ExtraPkgs: lim},
-			{Rel: "middleware/limiter", Dir: "limiter", Entry: "VH_C13_concurrent", Cases: tierCases([]int{0, 4, 12, 5}, []int{0, 1, 2, 4, 5, 6, 8, 12, 13, 14}), Reach: []string{"joined"}, MaxPaths: 200000, ExtraPkgs: lim, Repeat: 3},
+			{Rel: "middleware/limiter", Dir: "limiter", Entry: "VH_C13_concurrent", Cases: tierCases([]int{0, 4, 12, 5, 7}, []int{0, 1, 2, 3, 4, 5, 6, 7, 8, 12, 13, 14, 15}), Reach: []string{"joined"}, MaxPaths: 200000, ExtraPkgs: lim, Repeat: 3},
 		},
 		Bounds: map[string]string{
 			"quick":    "fixed and sliding window, memory and external (stub) storage, skip options: histories of 3 requests over 2 keys, inter-arrival gaps 0..Expiration+1 s (solver-enumerated), per-request MaxFunc limit symbolic in 1..3, handler outcome symbolic; Expiration 2-3 s; concurrent: 2 requests (3 in thorough) on one key with limit 1..2, every interleaving at lock acquisition / storage / handler boundaries",
